@@ -31,7 +31,8 @@ EXPLANATION = (
     'parent exists). Decides the structural part, not byte-level JSON.'
     " R5/R6 (imported from C04-R2 and C08-R2): the primitive encoders (`_strftime` = strftime with the declared format) and the validators' normalisation (Nullable.validate maps only None to None) decide what text reaches the wire."
     ' RC (call-condition drift, stonelint.effects.run_calls): for every call of a repository or imported-library function in the functions the property is anchored in, the path conditions of its occurrences are compared with reference/effects.json by truth table; an assignment under which the function used to make the call and now completes without it is a violation (tests on memo tables, emptiness of the iterated collection and earlier refusals excepted; re-spelled conditions are not claimed).'
-    ' MK (memo-key rule, stonelint.memo): a memo table or done-set the reference tree does not have must be keyed by every access path the skipped code reads, injectively and type-aware.')
+    ' MK (memo-key rule, stonelint.memo): a memo table or done-set the reference tree does not have must be keyed by every access path the skipped code reads, injectively and type-aware.'
+    ' RI (interface drift, stonelint.interface): constants and tables (folded values), compiled regular expressions (witness text), parameter defaults, special methods, base classes and caching decorators of the modules the property rests on are compared with reference/interface.json; only a concrete difference in what is computed is reported.')
 ASSUMPTIONS = [
     'reference/wire_format.json is a faithful transcription of docs/json_serializer.rst',
     'json.dumps renders Python dict/list/str/int/float/bool/None as the JSON kinds of the same name',
@@ -277,6 +278,8 @@ def run(pm, ctx):
     run_calls(pm, ctx, 'C05-RC', OWN['C05'])
     from .. import memo
     memo.run(pm, ctx, 'C05-MK', OWN['C05'])
+    from .. import interface
+    interface.run(pm, ctx, 'C05-RI', OWN['C05'])
     ctx.import_rules(pm, 'C04', {'C04-R4'}, 'C05-R7',
                      'the encoder walks the field table of the declared type (shared with C04-R4)')
     ctx.import_rules(pm, 'C08', {'C08-R6'}, 'C05-R8',
